@@ -150,9 +150,11 @@ def build_model(impl, rng, L, fixed):
         except Exception:
             break
     m = g.w.m
-    m.name = rng.choice(['model', 'müdel ✓', 'a: b', '0123'])
+    m.name = rng.choice(['model', 'müdel ✓', 'a: b', '0123', 'mo\x85del', 'two\nlines'])
     # names that are significant to YAML / unicode, applied to live assets (kept unique)
-    tricky = ['yes', '0123', '~', '1e3', 'a: b', '#x', 'ünï', 'null', 'x:1', ' lead']
+    tricky = ['yes', '0123', '~', '1e3', 'a: b', '#x', 'ünï', 'null', 'x:1', ' lead', 'trail ', 'rack 1\x85row 2', 'a\u2028b',
+              '\ufeffbom', 'nb\xa0sp', 'tab\there', 'line\nbreak', "quo'te", 'dq"uote', '- dash', '? q', '[x]', '{y}', '!tag',
+              '&anc', '*ali', '%pct', '@at', '`bt', '|', '>', 'é中😀', 'bell\x07', 'a\u2029b', '\x85', 'x\x85']
     rng.shuffle(tricky)
     for a in m.assets:
         if rng.random() < 0.3 and tricky:
